@@ -47,6 +47,7 @@ MODULE_PATHS = ["top", "top/proj", "top/proj/sub"]
 
 POOL = [
     ("import", "os"),
+    ("import", "macos.os"),  # an external whose name ends like another external's name begins
     ("import", "os.path"),
     ("import", "x.y.z"),
     ("import", "handlers"),
@@ -100,7 +101,7 @@ def plan(tier, seed):
                 shards.append({"mp": mp, "importer": importer, "k": k, "lo": lo, "hi": lo + step,
                                "pat_size": 2,
                                "bound": f"statements<={k} patterns<=2" + (" (two statements: patterns<=1)" if tier == "quick" else "")})
-    return {"shards": shards, "require_nonzero": ["config:excluded", "config:included", "config:glob", "config:regex", "config:regex-raw",
+    return {"shards": shards, "require_nonzero": ["config:excluded", "config:included", "config:glob", "config:regex", "config:regex-raw", "config:flavour-mix",
                                                   "external-kept", "external-dropped"]}
 
 
@@ -171,6 +172,16 @@ def configs(files, mp, pat_size):
             rx = tuple(glob_to_regex_model(p) for p in combo)
             yield ("regex", {"exclude_external_libraries": False, "regex_external_exclusions": rx}, True,
                    (lambda s, c=rx: any(re.match(p, s) for p in c)))
+    # the flavour of the *file* exclusions (glob / regex) is independent of the flavour of the external
+    # exclusions: all four combinations, with file patterns that match nothing
+    for p in pats[:3]:
+        rxp = glob_to_regex_model(p)
+        yield ("flavour-mix", {"exclude_external_libraries": False, "external_exclusions": (p,), "exclusions": (), "regex_exclusions": ("zz_nomatch",)}, True,
+               (lambda s, q=p: glob_matches(q, s)))
+        yield ("flavour-mix", {"exclude_external_libraries": False, "regex_external_exclusions": (rxp,), "exclusions": ("zz_nomatch",)}, True,
+               (lambda s, q=rxp: re.match(q, s) is not None))
+        yield ("flavour-mix", {"exclude_external_libraries": False, "regex_external_exclusions": (rxp,), "exclusions": (), "regex_exclusions": ("zz_nomatch",)}, True,
+               (lambda s, q=rxp: re.match(q, s) is not None))
     # raw regexes that are not anchored at the end (a regex is matched from the start of the name, so an
     # escaped name also excludes every name it is a textual prefix of) and an explicit alternation
     raw = [re.escape(n) for n in ext_names[:4]] + [re.escape(n)[:-1] for n in ext_names[:2] if len(n) > 2]
